@@ -38,7 +38,8 @@ type ModifySigners struct {
 func unmarshalAndVerifyData(data []byte) (types.Signers, error) {
 	// newSigners := make(types.Signers, 0)
 	newSigners := &ModifySigners{}
-	err := json.Unmarshal(data, &newSigners)
+	// newSigners is a pointer already. With a pointer to it, the JSON document "null" set it to nil and the next line crashed the node
+	err := json.Unmarshal(data, newSigners)
 	if err != nil {
 		return nil, err
 	}
